@@ -7,6 +7,10 @@ open Hms.Core Hms.Core.Comp
 
 /-! ## Fuel the compiler model needs -/
 namespace Frag
+/-- The deepest element of a list literal. -/
+def cdEls : List Expr → Nat
+  | [] => 1
+  | x :: xs => max (depthE x) (cdEls xs)
 /-- The longest literal list of the arms of a `match`. -/
 def litsLen : List (List Expr × Expr) → Nat
   | [] => 0
@@ -19,6 +23,8 @@ def cdE : Expr → Nat
   | .ifE _ _ c t (some e) => max (cdE c) (max (cdB t) (cdB e)) + 1
   | .call _ _ _ args _ => cdArgs args + args.length + 2
   | .matchE _ _ c arms (some d) => max (cdE c) (max (cdE d) (cdArms arms + arms.length + litsLen arms + 3)) + 1
+  | .list _ _ xs => cdEls xs + xs.length + 2
+  | .index _ _ b i => max (cdE b) (cdE i) + 1
   | _ => 1
 def cdArms : List (List Expr × Expr) → Nat
   | [] => 1
@@ -42,6 +48,7 @@ def cdS : Stmt → Nat
   | _ => 1
 /-- Expression statements: assignment and `if` over statement blocks. -/
 def cdX : Expr → Nat
+  | .assign _ _ (.index isp ity b i) r => max (cdE (.index isp ity b i)) (cdE r) + 1
   | .assign _ _ _ r => cdE r + 1
   | .ifE _ _ c t (some eb) => max (cdE c) (max (cdBS t) (cdBS eb)) + 1
   | .ifE _ _ c t none => max (cdE c) (cdBS t) + 1
@@ -285,6 +292,44 @@ theorem wsGArgs_mem (scopes : CScopes) (φ : String → Option String) : ∀ (ar
     · simp only [Frag.wsGE, Bool.and_eq_true]; exact ⟨h1.1, h2.1⟩
     · exact ih h1.2 h2.2 a ha
 
+/-! ## List literals -/
+
+theorem compileListElems_run (cs : CState) (sp : Span) : ∀ (xs : List Expr) (fuel : Nat),
+    xs.all Frag.pureE = true → Frag.cdEls xs + xs.length + 1 ≤ fuel →
+    ∀ (L : List (String × String × Nat)) (c0 : SCode) (env : CEnv),
+      Frag.resolved env.scopes (xs.flatMap Frag.varsE) = true →
+      (compileListElems fuel sp xs).run (updS cs L c0 env) =
+        ((), updS cs L (c0 ++ (cgEls cs.currModule (ρS env.scopes) sp xs env.lm).1)
+          { env with lm := (cgEls cs.currModule (ρS env.scopes) sp xs env.lm).2 }) := by
+  intro xs
+  induction xs with
+  | nil =>
+    intro fuel _ hf L c0 env _
+    obtain ⟨f, rfl⟩ : ∃ f, fuel = f + 1 := ⟨fuel - 1, by simp [Frag.cdEls] at hf; omega⟩
+    rw [compileListElems]
+    simp [cgEls]
+    rfl
+  | cons x xs ih =>
+    intro fuel hp hf L c0 env hres
+    simp only [List.all_cons, Bool.and_eq_true] at hp
+    simp only [Frag.cdEls, List.length_cons] at hf
+    simp only [List.flatMap_cons] at hres
+    have hres1 : Frag.resolved env.scopes (Frag.varsE x) = true := by
+      simp only [Frag.resolved, List.all_append, Bool.and_eq_true] at hres; exact hres.1
+    have hres2 : Frag.resolved env.scopes (xs.flatMap Frag.varsE) = true := by
+      simp only [Frag.resolved, List.all_append, Bool.and_eq_true] at hres; exact hres.2
+    obtain ⟨f, rfl⟩ : ∃ f, fuel = f + 1 := ⟨fuel - 1, by omega⟩
+    rw [compileListElems]
+    refine bind_run _ _ _ _ _ _ (compileExpr_pure_S f x cs L c0 env hp.1 (by omega) hres1) ?_
+    refine bind_run _ _ _ _ _ _ (emit_run_S _ _ _ _ _ _) ?_
+    refine bind_run _ _ _ _ _ _ (emit_run_S _ _ _ _ _ _) ?_
+    have h2 := ih f hp.2 (by omega) L
+      (c0 ++ (cpE cs.currModule (ρS env.scopes) x env.lm).1 ++ [(Instr.copyPush (PVal.int 2), sp)] ++
+        [(Instr.hostCall "__internal_list_push", sp)])
+      { env with lm := (cpE cs.currModule (ρS env.scopes) x env.lm).2 } hres2
+    rw [h2]
+    simp only [cgEls, List.append_assoc, List.cons_append, List.nil_append]
+
 /-! ## The `match` lowering -/
 
 theorem compileLit_run (f : Nat) (l : Expr) (h : Frag.litE l = true) (cs : CState) (L) (c0 : SCode) (env : CEnv) :
@@ -483,6 +528,16 @@ theorem compile_gexpr : ∀ (fuel : Nat),
             refine bind_run _ _ _ _ _ _ (hE _ _ _ hv3 hc3) ?_
             rw [emit_run_S]
             simp only [List.append_assoc, List.cons_append, List.nil_append, Option.isSome_some, if_true]
+        case list sp ty xs =>
+          simp only [Frag.cdE] at hd
+          simp only [Frag.wsGE, Frag.varsGE, Bool.and_eq_true] at hws
+          have hpure : xs.all Frag.pureE = true := by
+            simp only [List.all_eq_true] at hok ⊢
+            exact fun x hx => atom_pure x (hok x hx)
+          rw [compileExpr, cgE]
+          refine bind_run _ _ _ _ _ _ (emit_run_S _ _ _ _ _ _) ?_
+          rw [compileListElems_run cs sp xs fuel hpure (by omega) L _ env hws.1]
+          simp only [List.append_assoc]
         case matchE sp ty c arms dflt =>
           cases dflt with
           | none => simp [Frag.okGE] at hok
@@ -581,5 +636,70 @@ theorem compile_gexpr : ∀ (fuel : Nat),
             (by rw [compileStmts]; rfl) ?_
           refine bind_run _ _ _ _ _ _ h1 ?_
           rfl
+
+/-- **`compileExpr` on `Frag.okXE`**: element reads compile to `code(l); code(i); Index`. -/
+theorem compile_xexpr : ∀ (fuel : Nat) (e : Expr) (cs : CState), Frag.okXE e = true → Frag.cdE e ≤ fuel →
+    CompGE fuel e cs := by
+  intro fuel
+  induction fuel with
+  | zero => intro e cs _ hd; have := cdE_pos e; omega
+  | succ fuel ih =>
+    intro e cs hok hd L c0 env hws
+    cases e
+    case index sp ty b i =>
+      simp only [Frag.okXE, Bool.and_eq_true] at hok
+      obtain ⟨⟨hb, hi⟩, _⟩ := hok
+      simp only [Frag.cdE] at hd
+      simp only [Frag.wsGE, Frag.varsGE, Frag.callsGE, Bool.and_eq_true] at hws
+      rw [resolved_append, callsOK_append] at hws
+      have hB := ih b cs hb (by omega) L c0 env
+        (by simp only [Frag.wsGE, Bool.and_eq_true]; exact ⟨hws.1.1, hws.2.1⟩)
+      have hI := ih i cs hi (by omega) L
+        (c0 ++ (cgE cs.currModule (ρS env.scopes) (φOf cs) b env.lm).1)
+        { env with lm := (cgE cs.currModule (ρS env.scopes) (φOf cs) b env.lm).2 }
+        (by simp only [Frag.wsGE, Bool.and_eq_true]; exact ⟨hws.1.2, hws.2.2⟩)
+      rw [compileExpr, cgE]
+      refine bind_run _ _ _ _ _ _ hB ?_
+      refine bind_run _ _ _ _ _ _ hI ?_
+      rw [emit_run_S]
+      simp only [List.append_assoc]
+    case grouped sp e =>
+      simp only [Frag.okXE] at hok
+      simp only [Frag.cdE] at hd
+      rw [compileExpr, cgE]
+      exact ih e cs hok (by omega) L c0 env hws
+    case pre sp ty op e =>
+      simp only [Frag.okXE] at hok
+      simp only [Frag.cdE] at hd
+      have h1 := ih e cs hok (by omega) L c0 env hws
+      cases op <;>
+        (rw [compileExpr, cgE]
+         refine bind_run _ _ _ _ _ _ h1 ?_
+         rw [emit_run_S, List.append_assoc]; rfl)
+    case «infix» sp ty op l r =>
+      by_cases hp : Frag.pureE (.infix sp ty op l r) = true
+      · exact (compile_gexpr (fuel + 1)).1 _ cs (by simp only [Frag.okGE, hp, Bool.true_or]) hd L c0 env hws
+      have hnp : Frag.pureE (.infix sp ty op l r) = false := by simpa using hp
+      simp only [Frag.okXE, hnp, Bool.false_or, Bool.and_eq_true, Bool.not_eq_eq_eq_not, Bool.not_true] at hok
+      obtain ⟨⟨⟨hlog, hl⟩, hr⟩, _⟩ := hok
+      simp only [Frag.cdE] at hd
+      simp only [Frag.wsGE, Frag.varsGE, Frag.callsGE, Bool.and_eq_true] at hws
+      rw [resolved_append, callsOK_append] at hws
+      have hor : op ≠ .or := by intro h; subst h; simp [Frag.isLogical] at hlog
+      have hand : op ≠ .and := by intro h; subst h; simp [Frag.isLogical] at hlog
+      have hL := ih l cs hl (by omega) L c0 env
+        (by simp only [Frag.wsGE, Bool.and_eq_true]; exact ⟨hws.1.1, hws.2.1⟩)
+      have hR := ih r cs hr (by omega) L
+        (c0 ++ (cgE cs.currModule (ρS env.scopes) (φOf cs) l env.lm).1)
+        { env with lm := (cgE cs.currModule (ρS env.scopes) (φOf cs) l env.lm).2 }
+        (by simp only [Frag.wsGE, Bool.and_eq_true]; exact ⟨hws.1.2, hws.2.2⟩)
+      rw [compileExpr, cgE]
+      · refine bind_run _ _ _ _ _ _ hL ?_
+        refine bind_run _ _ _ _ _ _ hR ?_
+        rw [arith_run_S _ _ _ _ _ _ hlog]
+        simp only [List.append_assoc]
+      all_goals (intro h; first | exact hor h | exact hand h)
+    all_goals
+      exact (compile_gexpr (fuel + 1)).1 _ cs (by simpa [Frag.okXE] using hok) hd L c0 env hws
 
 end HmsProofs.Sim
